@@ -380,7 +380,7 @@ func (rr *RelayRun) exec(k *sim.Kernel, op RelayOp) {
 		k.Settle()
 	case "advance":
 		k.Advance(time.Duration(op.Ms) * time.Millisecond)
-	case "rtsp_pull_start", "rtsp_pull_release":
+	case "rtsp_pull_start", "rtsp_pull_release", "rtsp_origin_close":
 		rr.execRtspPull(k, op)
 	case "start_pub":
 		if op.Pub >= len(rr.Pubs) {
